@@ -8,6 +8,8 @@ cancel / timer expiry).  The correspondence suites `C17q` (exact, sequential) an
 (linearizability of recorded concurrent histories) tie the real `DeadlineChan` to this Spec.
 -/
 import HopModel.Proofs.Queue
+import HopModel.Proofs.DeadlineSteps
+import HopModel.Proofs.Lifecycle
 namespace Queue
 
 /-! ### FIFO, at most once -/
@@ -201,3 +203,157 @@ example : (trace (Q.init 1) [.setDeadline .past, .setDeadline .future, .recv]).m
     = [.ok, .ok, .block] := by decide
 
 end Queue
+
+/-!
+Part 2: the small-step interleaving model of the implementation (`Model/DeadlineSteps.lean`):
+any number of threads, every interleaving of the atomic actions of Recv / Send / Close /
+SetDeadline / Cancel / the timer callback.
+-/
+namespace DeadlineSteps
+
+def Enabled (s : DS) (t : Nat) : Prop := ∃ s', Step s t s'
+
+/-- a thread blocked in the inner `select` of Recv or Send, waiting on deadline channel `c` -/
+def Blocked (s : DS) (t c : Nat) : Prop := s.pc t = .recvBlocked c ∨ s.pc t = .sendBlocked c
+
+/-- **C17 (the channel invariant).** In every reachable state, every deadline channel ever handed
+out — except possibly the current one — is closed, and a waiting thread only holds a channel that
+was handed out. -/
+theorem C17_old_channels_closed {cap : Nat} {s : DS} (h : Reach cap s) :
+    (∀ c, c < s.cur → s.isClosed c) ∧ (∀ t c, Holds (s.pc t) c → c ≤ s.cur) :=
+  ⟨(inv_reach h).old, (inv_reach h).held⟩
+
+/-- **C17 (no lost wake-up, expiry).** In every reachable state, a thread blocked in Recv or Send
+whose deadline channel has been closed (expiry, Cancel) or replaced (it is older than the current
+one) has an enabled step: it is released. -/
+theorem C17_no_lost_wakeup_expiry {cap : Nat} {s : DS} (h : Reach cap s) (t c : Nat)
+    (hb : Blocked s t c) (hc : s.isClosed c ∨ c < s.cur) : Enabled s t := by
+  have hcl : s.isClosed c := by
+    rcases hc with hc | hc
+    · exact hc
+    · exact (inv_reach h).old c hc
+  rcases hb with hb | hb
+  · exact ⟨_, Step.recvWakeExpired s t c hb hcl⟩
+  · exact ⟨_, Step.sendWakeExpired s t c hb hcl⟩
+
+/-- **C17 (no lost wake-up, close).** In every reachable state after the Cancel of a Close has run,
+no thread stays blocked in Recv or Send: every blocked thread has an enabled step — whatever
+SetDeadline / Cancel calls are still in flight (they can no longer un-expire the deadline). -/
+theorem C17_no_lost_wakeup {cap : Nat} {s : DS} (h : Reach cap s) (hclose : s.cancelled = true)
+    (t c : Nat) (hb : Blocked s t c) : Enabled s t := by
+  have inv := inv_reach h
+  have hle : c ≤ s.cur := by
+    apply inv.held t c
+    rcases hb with hb | hb <;> simp [Holds, hb]
+  apply C17_no_lost_wakeup_expiry h t c hb
+  by_cases hlt : c < s.cur
+  · right; exact hlt
+  · left
+    have : c = s.cur := by omega
+    rw [this]
+    exact (inv.fin hclose).2
+
+/-- **C17 (close stays final).** Once Close's Cancel has run, the current deadline channel stays
+closed for ever: no later step — in particular no SetDeadline that passed its closed check before
+the Close — re-opens it. -/
+theorem C17_closed_deadline_final {cap : Nat} {s s' : DS} (h : Reach cap s) (hclose : s.cancelled = true)
+    (t : Nat) (hs : Step s t s') : s'.cancelled = true ∧ s'.isClosed s'.cur := by
+  have inv' := inv_step (inv_reach h) hs
+  have hc' : s'.cancelled = true := by
+    cases hs <;> simp_all [DS.cancel]
+  exact ⟨hc', (inv'.fin hc').2⟩
+
+/-- non-vacuity: a Recv blocks, a SetDeadline passes its closed check, Close runs completely, the
+late SetDeadline executes — and the blocked Recv is still released (finding F23 was exactly the
+failure of this in the unrepaired code). -/
+example : ∃ s, Reach 1 s ∧ s.cancelled = true ∧ Blocked s 0 0 ∧ s.pc 1 = .idle ∧ Enabled s 0 := by
+  let s0 := init 1
+  have r0 : Reach 1 s0 := .init
+  -- thread 0: Recv up to the inner select
+  let s1 : DS := { s0 with pc := upd s0.pc 0 .recvPolled }
+  have r1 : Reach 1 s1 := .step 0 r0 (Step.recvPoll s0 0 rfl rfl)
+  let s2 : DS := { s1 with pc := upd s1.pc 0 .recvChecked }
+  have r2 : Reach 1 s2 := .step 0 r1 (Step.recvSeesOpen s1 0 rfl rfl)
+  let s3 : DS := { s2 with pc := upd s2.pc 0 (.recvHas s2.cur) }
+  have r3 : Reach 1 s3 := .step 0 r2 (Step.recvDone s2 0 rfl)
+  let s4 : DS := { s3 with pc := upd s3.pc 0 (.recvBlocked 0) }
+  have r4 : Reach 1 s4 := .step 0 r3 (Step.recvOuterOpen s3 0 0 rfl (by simp [DS.isClosed, s3, s2, s1, s0, init]))
+  -- thread 1: SetDeadline(zero) passes the closed check
+  let s5 : DS := { s4 with pc := upd s4.pc 1 (.setChecked .zero) }
+  have r5 : Reach 1 s5 := .step 1 r4 (Step.setSeesOpen s4 1 .zero rfl rfl)
+  -- thread 2: Close up to and including its Cancel
+  let s6 : DS := { s5 with closedFlag := true, pc := upd s5.pc 2 .closeFlagged }
+  have r6 : Reach 1 s6 := .step 2 r5 (Step.closeWins s5 2 rfl rfl)
+  let s7 : DS := { s6 with final := true, pc := upd s6.pc 2 .closeFinal }
+  have r7 : Reach 1 s7 := .step 2 r6 (Step.closeSetFinal s6 2 rfl)
+  let s8 : DS := { s7.cancel with cancelled := true, pc := upd s7.pc 2 .closeWantLock }
+  have r8 : Reach 1 s8 := .step 2 r7 (Step.closeCancel s7 2 rfl)
+  -- thread 1: the late SetDeadline finds the deadline final
+  let s9 : DS := { s8 with pc := upd s8.pc 1 .idle }
+  have r9 : Reach 1 s9 := .step 1 r8 (Step.setFinal s8 1 .zero rfl rfl)
+  refine ⟨s9, r9, rfl, Or.inl rfl, rfl, ?_⟩
+  exact C17_no_lost_wakeup r9 rfl 0 0 (Or.inl rfl)
+
+end DeadlineSteps
+
+/-!
+Part 3: the lifecycle elections of `transport.Client` (`Model/Lifecycle.lean`; `transport.Server.Close`
+has the same shape): any number of threads calling Handshake and Close in any interleaving.
+-/
+namespace Lifecycle
+
+/-- **C17 (the handshake runs once).** In every reachable state the handshake body has been started
+at most once, however many threads call Handshake / Read / Write concurrently and whenever Close
+intervenes. -/
+theorem C17_handshake_once {s : LS} (h : Reach s) : s.hsRuns ≤ 1 := (inv_reach h).hs1
+
+/-- **C17 (one shutdown owner).** At most one thread is ever in the owner's part of Close. -/
+theorem C17_close_elected_once {s : LS} (h : Reach s) (t u : Nat)
+    (ht : OwnerPC (s.pc t)) (hu : OwnerPC (s.pc u)) : t = u := by
+  have a := (inv_reach h).own t ht
+  have b := (inv_reach h).own u hu
+  rw [a] at b
+  exact Option.some.inj b
+
+/-- **C17 (every caller of Close observes the same result).** In every reachable state, any two
+Close calls that have returned — the elected owner or callers that waited on `closeDone`, in any
+order — returned the same value: the one stored in `closeErr`, which is stored once. -/
+theorem C17_close_same_result {s : LS} (h : Reach s) (t u v w : Nat)
+    (ht : s.pc t = .closeRet v) (hu : s.pc u = .closeRet w) : v = w := by
+  have a := (inv_reach h).ret t v ht
+  have b := (inv_reach h).ret u w hu
+  rw [a] at b
+  exact Option.some.inj b
+
+/-- a waiting Close caller is released as soon as the owner has published: it has an enabled step -/
+theorem C17_close_waiter_released {s : LS} (h : Reach s) (t : Nat)
+    (ht : s.pc t = .closeWaiting) (hd : s.closeDone = true) : ∃ s', Step s t s' := by
+  have := (inv_reach h).done hd
+  cases he : s.closeErr with
+  | none => exact absurd he this
+  | some v => exact ⟨_, Step.closeWake s t v ht hd he⟩
+
+/-- non-vacuity: thread 0 is elected for the handshake, thread 1 closes while it runs (stores 7),
+thread 2 joins the close; the handshake ends (its CAS fails: end-of-stream), the owner publishes,
+the waiter wakes up: both Close calls return 7. -/
+example : ∃ s, Reach s ∧ s.pc 1 = .closeRet 7 ∧ s.pc 2 = .closeRet 7 ∧ s.pc 0 = .hsRet .eof ∧ s.hsRuns = 1 := by
+  let s0 := init
+  have r0 : Reach s0 := .init
+  let s1 : LS := { s0 with state := .handshaking, hsRuns := s0.hsRuns + 1, pc := upd s0.pc 0 .hsRunning }
+  have r1 : Reach s1 := .step 0 r0 (Step.hsElect s0 0 rfl rfl)
+  let s2 : LS := { s1 with state := .closing, owner := some 1, pc := upd s1.pc 1 (.closeElected s1.state) }
+  have r2 : Reach s2 := .step 1 r1 (Step.closeElect s1 1 rfl rfl)
+  let s3 : LS := { s2 with pc := upd s2.pc 2 .closeWaiting }
+  have r3 : Reach s3 := .step 2 r2 (Step.closeJoin s2 2 rfl rfl)
+  let s4 : LS := { s3 with closeErr := some 7, pc := upd s3.pc 1 (.closeStored .handshaking 7) }
+  have r4 : Reach s4 := .step 1 r3 (Step.closeStore s3 1 .handshaking 7 rfl)
+  let s5 : LS := { s4 with state := finishState s4.state true, hsDone := true,
+                           pc := upd s4.pc 0 (.hsRet (hsResult (finishState s4.state true))) }
+  have r5 : Reach s5 := .step 0 r4 (Step.hsFinish s4 0 true rfl)
+  let s6 : LS := { s5 with state := .closed, closeDone := true, pc := upd s5.pc 1 (.closeRet 7) }
+  have r6 : Reach s6 := .step 1 r5 (Step.closePublish s5 1 .handshaking 7 rfl (fun _ => rfl))
+  let s7 : LS := { s6 with pc := upd s6.pc 2 (.closeRet 7) }
+  have r7 : Reach s7 := .step 2 r6 (Step.closeWake s6 2 7 rfl rfl rfl)
+  exact ⟨s7, r7, rfl, rfl, rfl, rfl⟩
+
+end Lifecycle
